@@ -156,6 +156,32 @@ func TestVerifA64Sweep(t *testing.T) {
 	// Decode must be a function of the word alone: at the end every recorded word is decoded again in reverse order,
 	// each time right after a word that differs from it only in its top bits / only in its low bits
 	defer func() {
+		// pairwise over the decoder's own format table: one representative word per format (its value, free bits zero, and a
+		// variant with some free bits set); the answer for word b right after a word of ANY other format a must equal the
+		// answer right after a NOP (the table is priority-ordered: aliases come before the wider base format)
+		if avEnv("VERIF_PAIRS", 1) != 0 {
+			var ws []uint32
+			for i := range instFormats {
+				f := &instFormats[i]
+				ws = append(ws, f.value, f.value|(^f.mask&0x00200421))
+			}
+			ref := make([]a64Rec, len(ws))
+			for i, w := range ws {
+				decodeWord(0xd503201f)
+				ref[i] = decodeWord(w)
+			}
+			reported := map[uint32]bool{}
+			for ai := 0; ai < len(ws); ai += 2 {
+				for bi, wb := range ws {
+					decodeWord(ws[ai])
+					if r := decodeWord(wb); r != ref[bi] && !reported[wb] {
+						reported[wb] = true
+						r.Ev, r.Changed = "word", true
+						enc.Encode(r)
+					}
+				}
+			}
+		}
 		for i := len(firstW) - 1; i >= 0; i-- {
 			w := firstW[i]
 			decodeWord(w ^ 0x80000000)
